@@ -392,6 +392,8 @@ theorem fadeIn_delays (pin k ms : Int) (h : 0 < k) (v : Int) :
   fun_induction FLed.fadeInLoop pin k ms h v with
   | case1 v hlt ih =>
     rw [Host.Led.fadeInLevels, dif_pos hlt]
+    have e : (if _h : v + k > 255 then 255 else v + k) = min 255 (v + k) := by split <;> omega
+    rw [e] at ih
     simp only [List.cons_append, List.nil_append, delaysL_cons_aWrite, delaysL_cons_delay, List.map_cons, ih,
       fadeIn_next]
   | case2 v hge =>
@@ -402,9 +404,209 @@ theorem fadeOut_delays (pin k ms : Int) (h : 0 < k) (v : Int) :
   fun_induction FLed.fadeOutLoop pin k ms h v with
   | case1 v hlt ih =>
     rw [Host.Led.fadeOutLevels, dif_pos hlt]
+    have e : (if _h : v - k < 0 then 0 else v - k) = max 0 (v - k) := by split <;> omega
+    rw [e] at ih
     simp only [List.cons_append, List.nil_append, delaysL_cons_aWrite, delaysL_cons_delay, List.map_cons, ih,
       fadeOut_next]
   | case2 v hge =>
     rw [Host.Led.fadeOutLevels, dif_neg hge]; rfl
+
+/-! ### flash_pattern -/
+
+def flashOne (pin : Int) (l : FLed) (v : Int) : FLed × List Ev :=
+  if v ≤ 0 then ({ l with brightness := 0, state := false }, [.dWrite pin 0])
+  else if v = 1 then ({ l with brightness := 255, state := true }, [.dWrite pin 1])
+  else
+    let b := if v > 255 then 255 else v
+    ({ l with brightness := b, state := decide (b > 0) }, [.aWrite pin b])
+
+theorem flashLoop_cons (pin d : Int) (l : FLed) (v : Int) (rest : List Int) :
+    FLed.flashLoop pin d l (v :: rest) =
+      ((FLed.flashLoop pin d (flashOne pin l v).1 rest).1,
+       (flashOne pin l v).2 ++ (if rest.isEmpty then [] else [.delay d]) ++
+         (FLed.flashLoop pin d (flashOne pin l v).1 rest).2) := by
+  rw [FLed.flashLoop]
+  rfl
+
+theorem flashOne_inv (pin : Int) (l : FLed) (v : Int) : LedInvL (flashOne pin l v).1 := by
+  unfold flashOne LedInvL
+  split_ifs <;> (simp; omega)
+
+theorem flashOne_duties (pin : Int) (l : FLed) (v : Int) :
+    ∀ d ∈ dutiesL (flashOne pin l v).2, 0 ≤ d ∧ d ≤ 255 := by
+  unfold flashOne
+  split_ifs <;> (simp; omega)
+
+theorem flashOne_delays (pin : Int) (l : FLed) (v : Int) : delaysL (flashOne pin l v).2 = [] := by
+  unfold flashOne
+  split_ifs <;> simp
+
+theorem flashOne_level (pin : Int) (l : FLed) (v : Int) :
+    (flashOne pin l v).2.filterMap levelL = [(flashOne pin l v).1.brightness] := by
+  unfold flashOne
+  split_ifs <;> simp [levelL]
+
+theorem flashLoop_clamped (pin d : Int) (p : List Int) (l : FLed) :
+    (∀ x ∈ dutiesL (FLed.flashLoop pin d l p).2, 0 ≤ x ∧ x ≤ 255) ∧
+    (LedInvL l → LedInvL (FLed.flashLoop pin d l p).1) := by
+  induction p generalizing l with
+  | nil => simp [FLed.flashLoop]
+  | cons v rest ih =>
+    rw [flashLoop_cons]
+    obtain ⟨ih1, ih2⟩ := ih (flashOne pin l v).1
+    refine ⟨?_, fun _ => ih2 (flashOne_inv pin l v)⟩
+    intro x hx
+    simp only [dutiesL_append, List.mem_append] at hx
+    rcases hx with (hx | hx) | hx
+    · exact flashOne_duties pin l v x hx
+    · split at hx <;> simp at hx
+    · exact ih1 x hx
+
+theorem flashLoop_delays (pin d : Int) (p : List Int) (l : FLed) :
+    delaysL (FLed.flashLoop pin d l p).2 = List.replicate (p.length - 1) d := by
+  induction p generalizing l with
+  | nil => simp [FLed.flashLoop]
+  | cons v rest ih =>
+    rw [flashLoop_cons]
+    simp only [delaysL_append, flashOne_delays, ih, List.nil_append, List.length_cons, Nat.add_sub_cancel]
+    cases rest with
+    | nil => simp
+    | cons w rest' => simp [List.replicate_succ]
+
+theorem flashLoop_level (pin d : Int) (p : List Int) (l : FLed) (hp : p ≠ []) :
+    ((FLed.flashLoop pin d l p).2.filterMap levelL).getLast? = some (FLed.flashLoop pin d l p).1.brightness := by
+  induction p generalizing l with
+  | nil => exact absurd rfl hp
+  | cons v rest ih =>
+    rw [flashLoop_cons]
+    cases rest with
+    | nil => simp [FLed.flashLoop, flashOne_level]
+    | cons w rest' =>
+      simp only [List.filterMap_append, List.getLast?_append, ih _ (List.cons_ne_nil w rest')]
+      rfl
+
+/-! ### host side -/
+
+theorem host_blink_ok {s : Host.Led} {d times : Val K} (h : (Host.Led.step s (.blink d times)).res = .ok) :
+    ¬ Val.lt d (.int 0) = true ∧ ∃ n : Int, times = .int n ∧ 0 < n ∧
+      Host.Led.step s (.blink d times) =
+        { st := Host.Led.setB 0, res := .ok, sleeps := List.replicate (2 * n.toNat) d } := by
+  simp only [Host.Led.step] at h ⊢
+  split_ifs at h ⊢ with h1 h2
+  cases times with
+  | flt x => cases h
+  | int n => exact ⟨h1, n, rfl, pos_of_not_le_zero h2, rfl⟩
+
+theorem host_fadeIn_ok {s : Host.Led} {stepv delay : Val K}
+    (h : (Host.Led.step s (.fadeIn stepv delay)).res = .ok) :
+    ¬ Val.lt delay (.int 0) = true ∧ ∃ (k : Int) (hk : 0 < k), stepv = .int k ∧
+      Host.Led.step s (.fadeIn stepv delay) =
+        { st := Host.Led.setB 255, res := .ok,
+          sleeps := (Host.Led.fadeInLevels (Host.Led.clamp255 s.brightness) k hk).map (fun _ => delay) } := by
+  simp only [Host.Led.step] at h ⊢
+  split_ifs at h ⊢ with h1 h2
+  cases stepv with
+  | flt x => cases h
+  | int k =>
+    simp only [] at h ⊢
+    split_ifs at h ⊢ with hk
+    exact ⟨h2, k, hk, rfl, rfl⟩
+
+theorem host_fadeOut_ok {s : Host.Led} {stepv delay : Val K}
+    (h : (Host.Led.step s (.fadeOut stepv delay)).res = .ok) :
+    ¬ Val.lt delay (.int 0) = true ∧ ∃ (k : Int) (hk : 0 < k), stepv = .int k ∧
+      Host.Led.step s (.fadeOut stepv delay) =
+        { st := Host.Led.setB 0, res := .ok,
+          sleeps := (Host.Led.fadeOutLevels (Host.Led.clamp255 s.brightness) k hk).map (fun _ => delay) } := by
+  simp only [Host.Led.step] at h ⊢
+  split_ifs at h ⊢ with h1 h2
+  cases stepv with
+  | flt x => cases h
+  | int k =>
+    simp only [] at h ⊢
+    split_ifs at h ⊢ with hk
+    exact ⟨h2, k, hk, rfl, rfl⟩
+
+theorem host_flash_ok {s : Host.Led} {p : List (Val K)} {delay : Val K}
+    (h : (Host.Led.step s (.flashPattern p delay)).res = .ok) :
+    ¬ Val.lt delay (.int 0) = true ∧
+      Host.Led.step s (.flashPattern p delay) = Host.Led.flashGo delay s p [] := by
+  simp only [Host.Led.step] at h ⊢
+  split_ifs at h ⊢ with h1
+  exact ⟨h1, rfl⟩
+
+def flashNext (delay : Val K) (s' : Host.Led) (rest acc : List (Val K)) : Host.Out Host.Led K :=
+  match rest with
+  | [] => { st := s', res := .ok, sleeps := acc.reverse }
+  | _ :: _ => Host.Led.flashGo delay s' rest (delay :: acc)
+
+theorem flashGo_cons_int (delay : Val K) (s : Host.Led) (v : Int) (rest : List (Val K)) (acc : List (Val K))
+    (h : (Host.Led.flashGo delay s (.int v :: rest) acc).res = .ok) :
+    0 ≤ v ∧ v ≤ 255 ∧
+    Host.Led.flashGo delay s (.int v :: rest) acc =
+      flashNext delay (Host.Led.setB (if v = 1 then 255 else v)) rest acc := by
+  have hbad : ((!(Val.isZero (Val.int v : Val K) || (Val.le (Val.int v : Val K) (.int 1) && Val.le (.int 1) (Val.int v : Val K))) &&
+      !(Val.between (.int 0) (Val.int v : Val K) (.int 255))) = true) ↔ ¬ (0 ≤ v ∧ v ≤ 255) := by
+    simp [Val.isZero, Val.lt, Val.le, Val.between]
+    omega
+  have hz : (Val.isZero (Val.int v : Val K) = true) ↔ v = 0 := by
+    simp [Val.isZero, Val.lt]
+    omega
+  have ho : ((Val.le (Val.int v : Val K) (.int 1) && Val.le (.int 1) (Val.int v : Val K)) = true) ↔ v = 1 := by
+    simp [Val.le]
+    omega
+  by_cases hv : 0 ≤ v ∧ v ≤ 255
+  · have hs' : (if Val.isZero (Val.int v : Val K) = true then Host.Led.setB 0
+        else if (Val.le (Val.int v : Val K) (.int 1) && Val.le (.int 1) (Val.int v : Val K)) = true then Host.Led.setB 255
+        else Host.Led.setB (Val.int v : Val K).toInt) = Host.Led.setB (if v = 1 then 255 else v) := by
+      simp only [hz, ho, Val.toInt]
+      split_ifs <;> first | rfl | (subst_vars; rfl) | omega
+    refine ⟨hv.1, hv.2, ?_⟩
+    rw [Host.Led.flashGo]
+    simp only []
+    rw [if_neg (by rw [hbad]; exact not_not.mpr hv), hs']
+    rfl
+  · exfalso
+    rw [Host.Led.flashGo] at h
+    simp only [] at h
+    rw [if_pos (hbad.mpr hv)] at h
+    cases h
+
+theorem flash_agree (pin ms : Int) (delay : Val K) : ∀ (ints : List Int) (f : FLed) (s : Host.Led) (acc : List (Val K)),
+    (Host.Led.flashGo delay s (ints.map Val.int) acc).res = .ok →
+    f.brightness = s.brightness → f.state = s.state →
+    (FLed.flashLoop pin ms f ints).1.brightness = (Host.Led.flashGo delay s (ints.map Val.int) acc).st.brightness ∧
+    (FLed.flashLoop pin ms f ints).1.state = (Host.Led.flashGo delay s (ints.map Val.int) acc).st.state ∧
+    (Host.Led.flashGo delay s (ints.map Val.int) acc).sleeps =
+      acc.reverse ++ List.replicate (ints.length - 1) delay := by
+  intro ints
+  induction ints with
+  | nil =>
+    intro f s acc _ hb hs
+    simp [Host.Led.flashGo, FLed.flashLoop, hb, hs]
+  | cons v rest ih =>
+    intro f s acc hok hb hs
+    rw [List.map_cons] at hok ⊢
+    obtain ⟨h0, h1, heq⟩ := flashGo_cons_int delay s v (rest.map Val.int) acc hok
+    rw [heq] at hok ⊢
+    rw [flashLoop_cons]
+    have hb1 : (flashOne pin f v).1.brightness = (Host.Led.setB (if v = 1 then 255 else v)).brightness := by
+      unfold flashOne Host.Led.setB
+      split_ifs <;> simp <;> omega
+    have hs1 : (flashOne pin f v).1.state = (Host.Led.setB (if v = 1 then 255 else v)).state := by
+      unfold flashOne Host.Led.setB
+      split_ifs <;> simp <;> omega
+    cases rest with
+    | nil =>
+      simp only [List.map_nil, FLed.flashLoop, List.length_cons, List.length_nil, flashNext]
+      exact ⟨hb1, hs1, by simp⟩
+    | cons w rest' =>
+      simp only [List.map_cons, flashNext] at hok ⊢
+      obtain ⟨i1, i2, i3⟩ := ih (flashOne pin f v).1 (Host.Led.setB (if v = 1 then 255 else v)) (delay :: acc)
+        (by simpa using hok) hb1 hs1
+      simp only [List.map_cons] at i1 i2 i3
+      refine ⟨i1, i2, ?_⟩
+      rw [i3]
+      simp [List.replicate_succ]
 
 end Reduino.Lemmas.C04
